@@ -46,6 +46,62 @@ def handler_operation(ctx, h):
     return None
 
 
+def _id_pack_model(ctx, rep):
+    """R02.13: lib.get_id_pack evaluated on model objects. The identifier a proxy is built from names the class the object
+    *presents* (`obj.__class__`, what isinstance() and `.__class__` answer locally - a facade or Mock(spec=X) presents X) while
+    the numeric ids are those of the real type and the object itself; a class is named by itself with instance id 0; an object
+    that already is a proxy hands back the identifier it was built from."""
+    from .. import miniinterp as MI
+    rep.rule("R02.13", "the identifier of a lent object names the class it presents (obj.__class__), carries id(type), id(obj); "
+                       "classes are (module.name, id(cls), 0); proxies return their own identifier")
+    f = ctx.func("rpyc.lib.get_id_pack")
+    rep.analysed(f)
+    TY = MI.ModelObj("type", {"__module__": "builtins", "__name__": "type"})
+    TY.cls = TY
+    REAL = MI.ModelObj("class Real", {"__module__": "real.mod", "__name__": "Real"}, cls=TY)
+    FACADE = MI.ModelObj("class Facade", {"__module__": "facade.mod", "__name__": "Facade"}, cls=TY)
+    PLAIN = MI.ModelObj("Real()", {}, cls=REAL)
+    PLAIN.attrs["__class__"] = REAL
+    MASKED = MI.ModelObj("instance presenting Facade", {"__module__": "real.mod"}, cls=REAL)
+    MASKED.attrs["__class__"] = FACADE
+    PROXY = MI.ModelObj("proxy", {"____id_pack__": ("peer.Cls", 11, 22)}, cls=REAL)
+    PROXY.attrs["__class__"] = FACADE
+    REAL.attrs["__class__"] = TY
+    FACADE.attrs["__class__"] = TY
+    classes = (TY, REAL, FACADE)
+
+    class _NS:
+        mi_native = True
+
+        def __init__(self, **kw):
+            self.__dict__.update(kw)
+    ident = lambda o: ("id", o.name)
+    extra = {"__calls__": {"id": ident, "inspect.ismodule": lambda o: False, "inspect.isclass": lambda o: any(o is c for c in classes)},
+             "__isinstance__": lambda v, t: any(v is c for c in classes) if t == "type" else False,
+             "__globals__": {"type": TY, "sys": _NS(modules={}),
+                             "inspect": _NS(ismodule=lambda o: False, isclass=lambda o: any(o is c for c in classes))},
+             "__max_iter__": 50}
+    extra["__global_lookup__"] = K.module_function_lookup(ctx, f.module, extra)
+    rows = [("an ordinary instance", PLAIN, ("real.mod.Real", ident(REAL), ident(PLAIN))),
+            ("an instance whose __class__ presents another class than its type", MASKED, ("facade.mod.Facade", ident(REAL), ident(MASKED))),
+            ("a class", REAL, ("real.mod.Real", ident(REAL), 0)),
+            ("an object that is a proxy already", PROXY, ("peer.Cls", 11, 22))]
+    bad = []
+    try:
+        for label, o, want in rows:
+            try:
+                got = MI.call_function(f.node, [o], extra)
+            except MI.Raised as r_:
+                got = "raises %s" % r_.name
+            if got != want:
+                bad.append("%s: %r, expected %r" % (label, got, want))
+    except AnalysisError as e_:
+        rep.undecided("R02.13", "get_id_pack model", str(e_))
+        return
+    rep.ob("R02.13", "get_id_pack: identifiers of the model objects", not bad,
+           "%d kinds of object evaluated" % len(rows) if not bad else "; ".join(bad)[:500], f.loc, kind="model")
+
+
 class _FalsyClass(object):
     """a class slot holding a class that is falsy (a metaclass with __len__/__bool__, e.g. an empty Enum-like class)"""
     def __bool__(self):
@@ -360,6 +416,7 @@ def run(ctx, rep):
            "data attributes and local names left out)" % (sorted(want_inst), sorted(want_cls)) if okm else
            "on the model hierarchy get_methods answers %s, expected instance %s / class %s" % (got, want_inst, want_cls),
            fgm.loc, kind="table")
+    _id_pack_model(ctx, rep)
     hi = ctx.func(K.CONN + "._handle_inspect")
     okhi = any(A.src(c.args[0]) == "netref.LOCAL_ATTRS" for c in A.find_calls(hi.node, "get_methods") if c.args)
     rep.ob("R02.4", "_handle_inspect excludes exactly the proxy-local names", okhi, "get_methods(netref.LOCAL_ATTRS, obj)" if okhi
